@@ -129,16 +129,24 @@ def hmc(p0, p1, mass):
 # ---------------------------------------------------------------------------
 # GMRF block update (Knorr-Held & Rue style), numpy re-implementation
 # ---------------------------------------------------------------------------
+class UnstableReference(Exception):
+    """The iteration the proposal is defined by left the regime in which a re-implementation
+    can reproduce it (rounding differences are amplified without bound)."""
+
+
 def _newton(counts, w, gamma, Q, stop=0.1, max_iter=200):
     g = np.array(gamma, dtype=np.float64)
     it = 0
     grad = np.full_like(g, np.inf)
-    while np.linalg.norm(grad) > stop and it < max_iter:
-        jac = Q.copy()
-        jac[np.diag_indices_from(jac)] += np.exp(-g) * w
-        grad = -(Q @ g) - counts + np.exp(-g) * w
-        g = g + np.linalg.solve(jac, grad)
-        it += 1
+    with np.errstate(over="ignore", invalid="ignore"):
+        while np.linalg.norm(grad) > stop and it < max_iter:
+            jac = Q.copy()
+            jac[np.diag_indices_from(jac)] += np.exp(-g) * w
+            grad = -(Q @ g) - counts + np.exp(-g) * w
+            if not np.all(np.isfinite(grad)) or np.linalg.norm(grad) > 1e6 or it > 40:
+                raise UnstableReference("Newton-Raphson: iteration %d, gradient norm %r" % (it, float(np.linalg.norm(grad))))
+            g = g + np.linalg.solve(jac, grad)
+            it += 1
     return g
 
 
@@ -167,6 +175,8 @@ def gmrf_block(gamma, gamma2, Q_old, Q_new, counts, w, stop=0.1, max_iter=200):
         bwd = _gauss_logq(gamma, counts, w, gamma2, Q_old, stop, max_iter)
     except np.linalg.LinAlgError:
         return None, {"cholesky": "failed"}
+    except UnstableReference as e:
+        return None, {"gmrf_reference_unstable": str(e)}
     return bwd - fwd, {}
 
 
